@@ -42,7 +42,7 @@ def Session.connectPacket (s : Session) : Connect :=
 
 /-- `Session::handle_disconnect`. -/
 def Session.handleDisconnect (s : Session) : Session :=
-  { s with data := { s.data with outbound := s.data.outbound.armReplay },
+  { s with data := { s.data with outbound := s.data.outbound.rearm },
            rt := s.rt.resetTransport, reader := s.reader.reset }
 
 structure Net where
